@@ -148,6 +148,24 @@ def run(ctx):
         faults["central-directory-overwritten"] = blob[:cd_at] + b"\x00" * 46 + blob[cd_at + 46:]
         faults["middle-missing"] = blob[:len(blob) // 3] + blob[len(blob) // 2:]
         faults["empty-file"] = b""
+        # an intact archive whose directory entry of content.xml asks for something the zip library does not do: zipfile answers with
+        # NotImplementedError / RuntimeError rather than BadZipFile
+        pos = blob.find(b"PK\x01\x02")
+        while pos >= 0:
+            name_len = int.from_bytes(blob[pos + 28:pos + 30], "little")
+            if blob[pos + 46:pos + 46 + name_len] == b"content.xml":
+                def patched(offset, value, blob=blob, pos=pos):
+                    return blob[:pos + offset] + value.to_bytes(2, "little") + blob[pos + offset + 2:]
+                flags = int.from_bytes(blob[pos + 8:pos + 10], "little")
+                faults["content-version-needed-25.5"] = patched(6, 255)
+                faults["content-flag-encrypted"] = patched(8, flags | 0x1)
+                faults["content-flag-patched-data"] = patched(8, flags | 0x20)
+                faults["content-flag-strong-encryption"] = patched(8, flags | 0x40)
+                faults["content-compression-method-99"] = patched(10, 99)
+                faults["content-compression-method-bzip2"] = patched(10, 12)
+                faults["content-compression-method-lzma"] = patched(10, 14)
+                break
+            pos = blob.find(b"PK\x01\x02", pos + 4)
         for name, data in faults.items():
             path = os.path.join(tmp, "fault.ods")
             with open(path, "wb") as fh:
